@@ -65,6 +65,21 @@ func chanOf(i int) (string, message.Ssid) {
 	return lvl + "/", message.Ssid{1, hash.OfString(lvl)}
 }
 
+// every fifth message is "retained" (the sentinel TTL): it must come back with the configured retention (30 days by default)
+func ttlOf(i int) uint32 {
+	if i%5 == 4 {
+		return message.RetainedTTL
+	}
+	return 3600 + uint32(i%7)
+}
+
+func expiryTTL(i int) uint32 {
+	if i%5 == 4 {
+		return 2592000
+	}
+	return 3600 + uint32(i%7)
+}
+
 func payloadOf(i, size int) []byte {
 	p := []byte(fmt.Sprintf("m%08d", i))
 	for len(p) < size {
@@ -135,7 +150,7 @@ func childMain(p plan) {
 				i := p.Start + k*cy.Goroutines + g
 				ch, ssid := chanOf(i)
 				m := message.New(ssid, []byte(ch), payloadOf(i, cy.Size))
-				m.TTL = 3600 + uint32(i%7)
+				m.TTL = ttlOf(i)
 				say("TRY %d %s\n", i, hex.EncodeToString(m.ID))
 				if err := s.Store(m); err != nil {
 					say("ERR store: %v\n", err)
@@ -218,7 +233,7 @@ func run(c Case) vkit.Result {
 			case strings.HasPrefix(line, "TRY "):
 				fmt.Sscanf(line, "TRY %d %s", &i, &id)
 				ch, _ := chanOf(i)
-				pending[i] = want{id, ch, hex.EncodeToString(payloadOf(i, cy.Size)), 3600 + uint32(i%7)}
+				pending[i] = want{id, ch, hex.EncodeToString(payloadOf(i, cy.Size)), expiryTTL(i)}
 				tried[id] = true
 				if i >= next {
 					next = i + 1
